@@ -41,7 +41,7 @@ structure mcl_Ps (Qs : α → Nat → Ctx → Prop) (Qn : Nat → SElem → Prop
   ret : ∀ id sz s, el = .ext id sz s → s.hdr.id.addr = cfg.addr ∧ retr c id = (.dataSlab (mei_cGroupSlab s), true, none, c)
   sz : ∀ g, (mei_nested el = some g ∨ ∃ x, el = .single x ∧ o.newWith cfg (lvl + 1) x = .ok g) →
       ∀ ks old g' c', o.set cfg g (lvl + 1) k v c = .ok (ks, old, g', c') → o.size g' + 2 < 2^32
-  single : ∀ x, el = .single x → x.key.size < 2^32 ∧ x.size < 2^32 ∧ x.key.dig (lvl + 1) < 2^64 ∧
+  single : ∀ x, el = .single x → x.key.size < 2^32 ∧ x.size < 2^32 ∧
       (x.key.same k = false → ∃ g, o.newWith cfg (lvl + 1) x = .ok g)
   res : ∀ el' ks old c', el.set o cfg lvl k v c = .ok (el', ks, old, c') → mcl_ElFit el'
 
@@ -150,4 +150,38 @@ theorem mcl_envA_remove (el : MElemF α) (c : Ctx) (lvl : Nat) (hk : UInt64) (hL
                   simp only [mei_rERemove, mei_cOptEl, mei_cEl, mcl_dElR, mel_rERemove, hslab, hs', u32_toNat hf1]
 
 end stepA
+end Atree.TransEq
+
+namespace Atree.TransEq
+open Atree
+
+section assemble
+variable {α X : Type} (o : ElemsOps α) (cfg : MCfg) (k : MKey) (v : Elem) (G : mcl_GOps α) (retr : mcl_Retr α X)
+variable {Qg Qs Qr : α → Nat → Ctx → Prop} {Qn : Nat → SElem → Prop}
+
+/-- the closed unit-A environment satisfies `EnvAOn` (the `Set` equation is a parameter: `mcl_envA_set`) -/
+theorem mcl_envA_on (hB : EnvBOn o cfg k v (mcl_envBG cfg G retr) Qg Qs Qr Qn) (hL : cfg.L < 2^64)
+    {Ps : MElemF α → Nat → Ctx → Prop}
+    (hset : ∀ el c lvl hk, lvl < 2^64 → Ps el lvl c →
+      (mcl_envA cfg (mcl_envBG cfg G retr) k).element_Set el c cfg.addr (u64 lvl) hk (.key k) (.val v) =
+        mel_rESet c (el.set o cfg lvl k v c)) :
+    EnvAOn o cfg k v (mcl_envA cfg (mcl_envBG cfg G retr) k) (mcl_Pg retr Qg) Ps (mcl_Pr o cfg k retr Qr) where
+  levels := rfl
+  climit := rfl
+  size := mcl_envA_size o cfg k v G retr hB
+  count := mcl_envA_count o cfg k v G retr hB
+  get := fun el c lvl hk _ hP => mcl_envA_get o cfg k v G retr hB el c lvl hk hL hP
+  set := hset
+  remove := fun el c lvl hk _ hP => mcl_envA_remove o cfg k v G retr hB el c lvl hk hL hP
+  newElem := fun _ => rfl
+  inj := fun x hx => by
+    show MElemF.single (mcl_dEA (mel_cE x)) = _
+    rw [mcl_dEA_cE x hx]
+  asKNF := fun _ => rfl
+  eHashLevel := rfl
+  eKeyNotFound := rfl
+  eCollisionLimit := rfl
+  eElementCount := rfl
+
+end assemble
 end Atree.TransEq
